@@ -341,7 +341,13 @@ def rule_r11(facts, col, rule_id="C14.R11"):
         best = None
         for edge, f in facts_at_e(dec, rb):
             if f[0] in ("Eq", "Ne") and (best is None or dec.dominates(best[0][0], edge[0])):
-                decoded = any(x.k == "call" and CODEC.match(x.q or "") for side in f[1:3] if hasattr(side, "k") for x in walk(side))
+                from ..common import _expand_deep
+                sides = []
+                for side in f[1:3]:
+                    if hasattr(side, "k"):
+                        ex, _c = _expand_deep(facts, side)        # `be_u32(window)`: a small helper around from_be_bytes
+                        sides.append(ex)
+                decoded = any(x.k == "call" and CODEC.match(x.q or "") for side in sides for x in walk(side))
                 if decoded:
                     best = (edge, f)
         if best is None:
